@@ -218,9 +218,10 @@ Proof. exact accepts_not_rejects. Qed.
 Print Assumptions C15_accept_excludes_reject.
 
 (* ------------------------------------------------------------------ *)
-(* 6. (partial: relative to the group hypotheses `secp256k1_group` of Proofs/EcdsaSecp.v — the concrete secp256k1 formulas
-      form a group of prime order n on the curve points, lift_x inverts the x coordinate; they are tied to k256 by
-      correspondence, not proved.)  Spends assembled through the library's own API are accepted.
+(* 6. (partial: relative to the group hypotheses `secp256k1_group` of Proofs/EcdsaSecp.v — for the concrete secp256k1
+      formulas on curve points: padd is associative, smul is additive and multiplicative in the
+      scalar; not proved, tied to k256 by correspondence.  Closure of padd/pneg/smul, commutativity, inverses, lift_x, the
+      exact order of G and the primality of p and n ARE proved: Proofs/SecpGroupPartial.v, Proofs/SecpPrimes.v.)  Spends assembled through the library's own API are accepted.
       tx_sign_element = Transaction::sign(..).to_bytes(): preimage, RFC 6979 ECDSA over its double SHA-256, DER, flag byte.
       same_skeleton t0 t: the transaction at signing time and at spending time differ at most in input scripts and
       extended fields (the signature hash never sees them: C15_sighash_ignores_input_scripts). *)
